@@ -310,6 +310,7 @@ package dbft
 //@   requires [C02] @tip tip()
 //@   use INV
 //@   ensures  @hist unchanged(self.Validators) && self.BlockIndex == old(self.BlockIndex) && self.ViewNumber >= old(self.ViewNumber) && self.MyIndex == old(self.MyIndex)
+//@   ensures  [C15] @sameBase self.lastBlockTimestamp == old(self.lastBlockTimestamp)
 //@   ensures  @arms gTimerArms >= old(gTimerArms) && gBroadcasts >= old(gBroadcasts)
 //@   ensures  [C05] @decidedStays implies(old(self.blockProcessed), self.blockProcessed)
 //@   ensures  [C05] @cacheKeptPurged implies(old(cachePurged()), cachePurged())
@@ -320,6 +321,7 @@ package dbft
 // loop invariant shared by the loops that call back into OnReceive
 //@ bundle LOOPU
 //@   use INV
+//@   ensures [C15] @sameBase self.lastBlockTimestamp == old(self.lastBlockTimestamp)
 //@   ensures gBroadcasts >= old(gBroadcasts)
 //@   ensures [C05] @cacheKeptPurged implies(old(cachePurged()), cachePurged())
 //@   ensures [C05] @decidedStays implies(old(self.blockProcessed), self.blockProcessed)
@@ -368,9 +370,22 @@ package dbft
 
 //@ func emptyReusableSlice
 //@   requires n >= 0
-//@   ensures len(result) == n && forall(k, 0, n, result[k] == nil)
+//@   ensures [C05,C11] @sizedAndEmpty len(result) == n && forall(k, 0, n, result[k] == nil)
 //@   modifies nothing
 
+// C13: the "sent" predicates are the implicit watch-only filters of checkPreCommit, onChangeView, onTimeout, ...
+//@ func (*Context).ResponseSent
+//@   requires wf()
+//@   ensures [C13] @filtersWatchOnly result == (c.MyIndex >= 0 && !c.Config.WatchOnly() && c.PreparationPayloads[c.MyIndex] != nil)
+//@   modifies nothing
+//@ func (*Context).PreCommitSent
+//@   requires wf()
+//@   ensures [C13] @filtersWatchOnly result == (c.MyIndex >= 0 && !c.Config.WatchOnly() && c.PreCommitPayloads[c.MyIndex] != nil)
+//@   modifies nothing
+//@ func (*Context).CommitSent
+//@   requires wf()
+//@   ensures [C13] @filtersWatchOnly result == (c.MyIndex >= 0 && !c.Config.WatchOnly() && c.CommitPayloads[c.MyIndex] != nil)
+//@   modifies nothing
 //@ func (*Context).isAntiMEVExtensionEnabled
 //@   requires cfgOK()
 //@   ensures [C07] @enabled result == amev()
@@ -391,6 +406,7 @@ package dbft
 //@   ensures [C05,C04,C12] @cleanProposal cleanProposal()
 //@   ensures [C05] @cleanHeight implies(view == 0, !self.blockProcessed && !self.preBlockProcessed && self.lastBlockTimestamp == ts)
 //@   ensures [C16,C05] @unsubscribed !self.txSubscriptionOn
+//@   ensures [C15,C05] @base self.lastBlockTimestamp == ts
 //@   ensures implies(view > 0, sameHeight() && unchanged(self.CommitPayloads, self.PreCommitPayloads, self.preBlockProcessed, self.blockProcessed))
 //@   ensures forall(i, 0, NN(), self.PreparationPayloads[i] == nil && self.ChangeViewPayloads[i] == nil) && implies(view == 0, forall(i, 0, NN(), self.CommitPayloads[i] == nil && self.PreCommitPayloads[i] == nil))
 //@   ghost gPrep = nil
@@ -637,11 +653,13 @@ package dbft
 //@ func (*DBFT).initializeConsensus
 //@   requires base() && implies(view > 0, wf() && slot() && tip() && view > self.ViewNumber)
 //@   requires [C04] @viewEvidence implies(view > 0, cvCount(view) >= specM(NN()))
+//@   requires [C15] @sameBase implies(view > 0, ts == self.lastBlockTimestamp)
 //@   requires [C03] @lock implies(view > 0, !locked() && said())
 //@   requires ts + self.TimestampIncrement <= 18446744073709551615
 //@   use INV
 //@   ensures self.ViewNumber >= view
 //@   ensures implies(view > 0, sameHeight())
+//@   ensures [C15] @sameBase self.lastBlockTimestamp == ts
 //@   ensures @heap heapMono()
 //@   ensures [C10] @timer implies(aview(), timerOK())
 //@   ensures @arms gTimerArms >= old(gTimerArms) && gBroadcasts >= old(gBroadcasts)
@@ -651,15 +669,19 @@ package dbft
 //@   ensures [C05] @freshStartView implies(old(forall(h, !has(self.cache.mail, h))) && view == 0, self.ViewNumber == 0 && !self.blockProcessed)
 //@   loop 1: use INV
 //@   loop 1: invariant self.ViewNumber >= view && implies(view > 0, sameHeight()) && heapMono() && inboxOK(msgs) && gTimerArms >= old(gTimerArms) && gBroadcasts >= old(gBroadcasts)
+//@   loop 1: invariant [C15] @sameBase self.lastBlockTimestamp == ts
 //@   loop 1: invariant [C05] @cachePurged implies(view == 0, cachePurged()) && implies(old(cachePurged()), cachePurged())
 //@   loop 2: use INV
 //@   loop 2: invariant self.ViewNumber >= view && implies(view > 0, sameHeight()) && heapMono() && inboxOK(msgs) && gTimerArms >= old(gTimerArms) && gBroadcasts >= old(gBroadcasts)
+//@   loop 2: invariant [C15] @sameBase self.lastBlockTimestamp == ts
 //@   loop 2: invariant [C05] @cachePurged implies(view == 0, cachePurged()) && implies(old(cachePurged()), cachePurged())
 //@   loop 3: use INV
 //@   loop 3: invariant self.ViewNumber >= view && implies(view > 0, sameHeight()) && heapMono() && inboxOK(msgs) && gTimerArms >= old(gTimerArms) && gBroadcasts >= old(gBroadcasts)
+//@   loop 3: invariant [C15] @sameBase self.lastBlockTimestamp == ts
 //@   loop 3: invariant [C05] @cachePurged implies(view == 0, cachePurged()) && implies(old(cachePurged()), cachePurged())
 //@   loop 4: use INV
 //@   loop 4: invariant self.ViewNumber >= view && implies(view > 0, sameHeight()) && heapMono() && inboxOK(msgs) && gTimerArms >= old(gTimerArms) && gBroadcasts >= old(gBroadcasts)
+//@   loop 4: invariant [C15] @sameBase self.lastBlockTimestamp == ts
 //@   loop 4: invariant [C05] @cachePurged implies(view == 0, cachePurged()) && implies(old(cachePurged()), cachePurged())
 //@   wraps d.ViewNumber+1 unless aview()
 //@   wraps d.timePerBlock<<(d.ViewNumber+1) unless aview()
